@@ -379,19 +379,186 @@ impl HtmlFilterBodyAction {
 //@@ item src/http/header.rs :: struct Header
 // foreign to this unit (opaque): BodyFilter description (api), codec stages (flate2 / brotli)
 #[verifier::external_body] pub struct BodyFilter { x: u8 }
-#[verifier::external_body] pub struct EncodeFilterBody { x: u8 }
-#[verifier::external_body] pub struct DecodeFilterBody { x: u8 }
 //@@ item src/filter/encoding/mod.rs :: enum SupportedEncoding
-pub uninterp spec fn enc_kind(e: EncodeFilterBody) -> SupportedEncoding;
-pub uninterp spec fn dec_kind(d: DecodeFilterBody) -> SupportedEncoding;
 impl Clone for SupportedEncoding {
     fn clone(&self) -> (r: Self) ensures r == *self { match self { SupportedEncoding::Brotli => SupportedEncoding::Brotli, SupportedEncoding::Gzip => SupportedEncoding::Gzip, SupportedEncoding::Deflate => SupportedEncoding::Deflate } }
 }
+// ---- foreign crates flate2 / brotli: streaming writers over an inner Vec<u8>. Abstract model (trusted, listed):
+//   fed   = all input bytes accepted so far;   sink = the inner Vec (output produced and not yet taken by the caller);
+//   prod  = every output byte produced so far (taken ++ sink).
+// Assumed streaming contract of the codecs: write_all accepts the WHOLE buffer (write only a prefix), flush/finish only append output,
+// and after a successful flush the output produced so far carries exactly the input fed so far (`carried`), i.e. the codec itself
+// is chunk-invariant at the level of the carried payload.  These are flate2/brotli facts, not proved here.
+pub struct Compression { x: u8 }
+impl Compression { #[verifier::external_body] pub fn default() -> Self { unimplemented!() } }
+pub uninterp spec fn carried(k: SupportedEncoding, encode: bool, prod: Seq<u8>) -> Seq<u8>;   // payload recoverable from a flushed output prefix
+pub uninterp spec fn complete(k: SupportedEncoding, encode: bool, prod: Seq<u8>) -> bool;     // prod is a complete valid stream
+macro_rules! stream_writer_shim {
+    ($name:ident) => {
+        verus! {
+        #[verifier::external_body] #[verifier::accept_recursive_types(W)] pub struct $name<W> { w: std::marker::PhantomData<W> }
+        impl $name<Vec<u8>> {
+            pub uninterp spec fn fed(&self) -> Seq<u8>;
+            pub uninterp spec fn sink(&self) -> Seq<u8>;
+            pub uninterp spec fn prod(&self) -> Seq<u8>;
+            pub uninterp spec fn kind(&self) -> (SupportedEncoding, bool);
+            #[verifier::external_body]
+            pub fn write_all(&mut self, buf: &[u8]) -> (r: std::result::Result<(), std::io::Error>)
+                ensures final(self).kind() == old(self).kind(),
+                    r.is_ok() ==> final(self).fed() == old(self).fed() + buf@ && (exists|x: Seq<u8>| final(self).sink() == old(self).sink() + x && final(self).prod() == old(self).prod() + x),
+            { unimplemented!() }
+            #[verifier::external_body]
+            pub fn write(&mut self, buf: &[u8]) -> (r: std::result::Result<usize, std::io::Error>)
+                ensures final(self).kind() == old(self).kind(),
+                    r matches Ok(n) ==> n <= buf@.len() && final(self).fed() == old(self).fed() + buf@.take(n as int) && (exists|x: Seq<u8>| final(self).sink() == old(self).sink() + x && final(self).prod() == old(self).prod() + x),
+            { unimplemented!() }
+            #[verifier::external_body]
+            pub fn flush(&mut self) -> (r: std::result::Result<(), std::io::Error>)
+                ensures final(self).kind() == old(self).kind(),
+                    r.is_ok() ==> final(self).fed() == old(self).fed() && (exists|x: Seq<u8>| final(self).sink() == old(self).sink() + x && final(self).prod() == old(self).prod() + x)
+                        && carried(final(self).kind().0, final(self).kind().1, final(self).prod()) == final(self).fed(),
+            { unimplemented!() }
+            #[verifier::external_body]
+            pub fn get_ref(&self) -> (r: &Vec<u8>) ensures r@ == self.sink() { unimplemented!() }
+            #[verifier::external_body]
+            pub fn get_mut(&mut self) -> (r: &mut Vec<u8>)
+                ensures r@ == old(self).sink(), final(self).sink() == final(r)@, final(self).fed() == old(self).fed(), final(self).prod() == old(self).prod(), final(self).kind() == old(self).kind(),
+            { unimplemented!() }
+        }
+        }
+    };
+}
+stream_writer_shim!(GzEncoder);
+stream_writer_shim!(ZlibEncoder);
+stream_writer_shim!(CompressorWriter);
+stream_writer_shim!(GzDecoder);
+stream_writer_shim!(ZlibDecoder);
+stream_writer_shim!(DecompressorWriter);
+// constructors / finishers of the shims (assumed, trusted): a new writer is fresh; finishing appends a tail after which the whole
+// output is a complete stream carrying exactly what was fed
+pub open spec fn fresh(fed: Seq<u8>, sink: Seq<u8>, prod: Seq<u8>) -> bool { fed.len() == 0 && sink.len() == 0 && prod.len() == 0 }
+pub open spec fn finished(k: (SupportedEncoding, bool), fed: Seq<u8>, sink: Seq<u8>, prod: Seq<u8>, out: Seq<u8>) -> bool {
+    &&& out.len() >= sink.len() && out.take(sink.len() as int) == sink
+    &&& complete(k.0, k.1, prod + out.skip(sink.len() as int))
+    &&& carried(k.0, k.1, prod + out.skip(sink.len() as int)) == fed
+}
+// finishing after some more output x was appended to both the sink and the total is finishing from the earlier state
+pub proof fn lemma_finished_extend(k: (SupportedEncoding, bool), fed: Seq<u8>, sink0: Seq<u8>, prod0: Seq<u8>, x: Seq<u8>, out: Seq<u8>)
+    requires finished(k, fed, sink0 + x, prod0 + x, out),
+    ensures finished(k, fed, sink0, prod0, out),
+{
+    let n0 = sink0.len() as int;
+    let n1 = (sink0 + x).len() as int;
+    assert(out.take(n0) =~= out.take(n1).take(n0));
+    assert((sink0 + x).take(n0) =~= sink0);
+    assert(out.skip(n0) =~= x + out.skip(n1)) by {
+        assert(out.take(n1) == sink0 + x);
+        assert forall|i: int| 0 <= i < x.len() implies out.skip(n0)[i] == x[i] by { assert(out.take(n1)[n0 + i] == (sink0 + x)[n0 + i]); }
+    }
+    assert(prod0 + out.skip(n0) =~= (prod0 + x) + out.skip(n1));
+}
+macro_rules! flate_finish_shim {
+    ($name:ident) => {
+        verus! {
+        impl $name<Vec<u8>> {
+            #[verifier::external_body]
+            pub fn try_finish(&mut self) -> (r: std::result::Result<(), std::io::Error>)
+                ensures final(self).kind() == old(self).kind(), final(self).fed() == old(self).fed(),
+                    r.is_ok() ==> (exists|x: Seq<u8>| final(self).sink() == old(self).sink() + x && final(self).prod() == old(self).prod() + x),
+            { unimplemented!() }
+            #[verifier::external_body]
+            pub fn finish(self) -> (r: std::result::Result<Vec<u8>, std::io::Error>)
+                ensures r matches Ok(v) ==> finished(self.kind(), self.fed(), self.sink(), self.prod(), v@),
+            { unimplemented!() }
+        }
+        }
+    };
+}
+flate_finish_shim!(GzEncoder);
+flate_finish_shim!(ZlibEncoder);
+flate_finish_shim!(GzDecoder);
+flate_finish_shim!(ZlibDecoder);
+impl GzEncoder<Vec<u8>> { #[verifier::external_body] pub fn new(w: Vec<u8>, c: Compression) -> (r: Self) requires w@.len() == 0 ensures fresh(r.fed(), r.sink(), r.prod()), r.kind() == (SupportedEncoding::Gzip, true) { unimplemented!() } }
+impl ZlibEncoder<Vec<u8>> { #[verifier::external_body] pub fn new(w: Vec<u8>, c: Compression) -> (r: Self) requires w@.len() == 0 ensures fresh(r.fed(), r.sink(), r.prod()), r.kind() == (SupportedEncoding::Deflate, true) { unimplemented!() } }
+impl GzDecoder<Vec<u8>> { #[verifier::external_body] pub fn new(w: Vec<u8>) -> (r: Self) requires w@.len() == 0 ensures fresh(r.fed(), r.sink(), r.prod()), r.kind() == (SupportedEncoding::Gzip, false) { unimplemented!() } }
+impl ZlibDecoder<Vec<u8>> { #[verifier::external_body] pub fn new(w: Vec<u8>) -> (r: Self) requires w@.len() == 0 ensures fresh(r.fed(), r.sink(), r.prod()), r.kind() == (SupportedEncoding::Deflate, false) { unimplemented!() } }
+impl CompressorWriter<Vec<u8>> {
+    #[verifier::external_body] pub fn new(w: Vec<u8>, buffer_size: usize, q: u32, lgwin: u32) -> (r: Self) requires w@.len() == 0 ensures fresh(r.fed(), r.sink(), r.prod()), r.kind() == (SupportedEncoding::Brotli, true) { unimplemented!() }
+    #[verifier::external_body] pub fn into_inner(self) -> (r: Vec<u8>) ensures finished(self.kind(), self.fed(), self.sink(), self.prod(), r@) { unimplemented!() }
+}
+impl DecompressorWriter<Vec<u8>> {
+    #[verifier::external_body] pub fn new(w: Vec<u8>, buffer_size: usize) -> (r: Self) requires w@.len() == 0 ensures fresh(r.fed(), r.sink(), r.prod()), r.kind() == (SupportedEncoding::Brotli, false) { unimplemented!() }
+    // Ok: complete stream; Err: the stream was truncated, the bytes decoded so far are returned (no completeness claim)
+    #[verifier::external_body] pub fn into_inner(self) -> (r: std::result::Result<Vec<u8>, Vec<u8>>)
+        ensures r matches Ok(v) ==> finished(self.kind(), self.fed(), self.sink(), self.prod(), v@),
+            r matches Err(v) ==> v@.len() >= self.sink().len() && v@.take(self.sink().len() as int) == self.sink(),
+    { unimplemented!() }
+}
+impl vstd::std_specs::convert::FromSpecImpl<std::io::Error> for FilterBodyError {
+    open spec fn obeys_from_spec() -> bool { false }
+    open spec fn from_spec(v: std::io::Error) -> Self { FilterBodyError::IoError(v) }
+}
+impl From<std::io::Error> for FilterBodyError {
+    //@@ fn src/filter/error.rs :: impl From<std::io::Error> for FilterBodyError / fn from
+}
+//@@ item src/filter/encoding/encode.rs :: enum EncodeFilterBody
+//@@ item src/filter/encoding/decode.rs :: enum DecodeFilterBody
 impl EncodeFilterBody {
-    #[verifier::external_body] pub fn new(encoding: SupportedEncoding) -> (r: Self) ensures enc_kind(r) == encoding { unimplemented!() }
+    pub open spec fn fed(&self) -> Seq<u8> { match self { EncodeFilterBody::Gzip(e) => e.fed(), EncodeFilterBody::Brotli(e) => e.fed(), EncodeFilterBody::Deflate(e) => e.fed() } }
+    pub open spec fn sink(&self) -> Seq<u8> { match self { EncodeFilterBody::Gzip(e) => e.sink(), EncodeFilterBody::Brotli(e) => e.sink(), EncodeFilterBody::Deflate(e) => e.sink() } }
+    pub open spec fn prod(&self) -> Seq<u8> { match self { EncodeFilterBody::Gzip(e) => e.prod(), EncodeFilterBody::Brotli(e) => e.prod(), EncodeFilterBody::Deflate(e) => e.prod() } }
+    pub open spec fn wkind(&self) -> (SupportedEncoding, bool) { match self { EncodeFilterBody::Gzip(e) => e.kind(), EncodeFilterBody::Brotli(e) => e.kind(), EncodeFilterBody::Deflate(e) => e.kind() } }
+    pub open spec fn kind_ok(&self) -> bool { match self { EncodeFilterBody::Gzip(e) => e.kind() == (SupportedEncoding::Gzip, true), EncodeFilterBody::Brotli(e) => e.kind() == (SupportedEncoding::Brotli, true), EncodeFilterBody::Deflate(e) => e.kind() == (SupportedEncoding::Deflate, true) } }
+    // one streaming step of the encoder stage: the WHOLE chunk is fed, everything produced is handed over in order, nothing stays in the sink,
+    // and what has been handed over so far carries exactly what has been fed so far
+    //@@ fn src/filter/encoding/encode.rs :: impl EncodeFilterBody / fn filter -> r
+    //@| requires old(self).sink().len() == 0,
+    //@| ensures final(self).wkind() == old(self).wkind(),
+    //@|     r matches Ok(out) ==> final(self).fed() == old(self).fed() + data@ && final(self).prod() == old(self).prod() + out@ && final(self).sink().len() == 0
+    //@|         && carried(final(self).wkind().0, final(self).wkind().1, final(self).prod()) == final(self).fed(),
+}
+impl EncodeFilterBody {
+    // end of stream: the remaining output completes a valid stream of the same encoding carrying exactly everything fed; the stage is reset
+    //@@ strip-path flate2::
+    //@@ fn src/filter/encoding/encode.rs :: impl EncodeFilterBody / fn end -> r
+    //@| requires old(self).kind_ok(),
+    //@| ensures final(self).kind_ok(), final(self).wkind() == old(self).wkind(), fresh(final(self).fed(), final(self).sink(), final(self).prod()),
+    //@|     r matches Ok(out) ==> finished(old(self).wkind(), old(self).fed(), old(self).sink(), old(self).prod(), out@),
+    //@| entry let ghost k = self.wkind(); let ghost f0 = self.fed(); let ghost s0 = self.sink(); let ghost p0 = self.prod();
+    //@| after `encoder.try_finish()?;`#0: proof { let x = choose|x: Seq<u8>| encoder.sink() == s0 + x && encoder.prod() == p0 + x; assert forall|o: Seq<u8>| finished(k, f0, s0 + x, p0 + x, o) implies finished(k, f0, s0, p0, o) by { lemma_finished_extend(k, f0, s0, p0, x, o); } }
+    //@| after `encoder.try_finish()?;`#1: proof { let x = choose|x: Seq<u8>| encoder.sink() == s0 + x && encoder.prod() == p0 + x; assert forall|o: Seq<u8>| finished(k, f0, s0 + x, p0 + x, o) implies finished(k, f0, s0, p0, o) by { lemma_finished_extend(k, f0, s0, p0, x, o); } }
 }
 impl DecodeFilterBody {
-    #[verifier::external_body] pub fn new(encoding: SupportedEncoding) -> (r: Self) ensures dec_kind(r) == encoding { unimplemented!() }
+    //@@ fn src/filter/encoding/decode.rs :: impl DecodeFilterBody / fn end -> r
+    //@| requires old(self).kind_ok(),
+    //@| ensures final(self).kind_ok(), final(self).wkind() == old(self).wkind(), fresh(final(self).fed(), final(self).sink(), final(self).prod()),
+    //@|     r matches Ok(out) ==> out@.len() >= old(self).sink().len() && out@.take(old(self).sink().len() as int) == old(self).sink(),
+    //@|     r matches Ok(out) ==> (!(*old(self) is Brotli) ==> finished(old(self).wkind(), old(self).fed(), old(self).sink(), old(self).prod(), out@)),
+    //@| entry let ghost k = self.wkind(); let ghost f0 = self.fed(); let ghost s0 = self.sink(); let ghost p0 = self.prod();
+    //@| after `decoder.try_finish()?;`#0: proof { let x = choose|x: Seq<u8>| decoder.sink() == s0 + x && decoder.prod() == p0 + x; assert forall|o: Seq<u8>| finished(k, f0, s0 + x, p0 + x, o) implies finished(k, f0, s0, p0, o) by { lemma_finished_extend(k, f0, s0, p0, x, o); } }
+    //@| after `decoder.try_finish()?;`#1: proof { let x = choose|x: Seq<u8>| decoder.sink() == s0 + x && decoder.prod() == p0 + x; assert forall|o: Seq<u8>| finished(k, f0, s0 + x, p0 + x, o) implies finished(k, f0, s0, p0, o) by { lemma_finished_extend(k, f0, s0, p0, x, o); } }
+}
+impl DecodeFilterBody {
+    pub open spec fn fed(&self) -> Seq<u8> { match self { DecodeFilterBody::Gzip(e) => e.fed(), DecodeFilterBody::Brotli(e) => e.fed(), DecodeFilterBody::Deflate(e) => e.fed() } }
+    pub open spec fn sink(&self) -> Seq<u8> { match self { DecodeFilterBody::Gzip(e) => e.sink(), DecodeFilterBody::Brotli(e) => e.sink(), DecodeFilterBody::Deflate(e) => e.sink() } }
+    pub open spec fn prod(&self) -> Seq<u8> { match self { DecodeFilterBody::Gzip(e) => e.prod(), DecodeFilterBody::Brotli(e) => e.prod(), DecodeFilterBody::Deflate(e) => e.prod() } }
+    pub open spec fn wkind(&self) -> (SupportedEncoding, bool) { match self { DecodeFilterBody::Gzip(e) => e.kind(), DecodeFilterBody::Brotli(e) => e.kind(), DecodeFilterBody::Deflate(e) => e.kind() } }
+    pub open spec fn kind_ok(&self) -> bool { match self { DecodeFilterBody::Gzip(e) => e.kind() == (SupportedEncoding::Gzip, false), DecodeFilterBody::Brotli(e) => e.kind() == (SupportedEncoding::Brotli, false), DecodeFilterBody::Deflate(e) => e.kind() == (SupportedEncoding::Deflate, false) } }
+    //@@ fn src/filter/encoding/decode.rs :: impl DecodeFilterBody / fn filter -> r
+    //@| requires old(self).sink().len() == 0,
+    //@| ensures final(self).wkind() == old(self).wkind(),
+    //@|     r matches Ok(out) ==> final(self).fed() == old(self).fed() + data@ && final(self).prod() == old(self).prod() + out@ && final(self).sink().len() == 0
+    //@|         && carried(final(self).wkind().0, final(self).wkind().1, final(self).prod()) == final(self).fed(),
+}
+pub open spec fn enc_kind(e: EncodeFilterBody) -> SupportedEncoding { e.wkind().0 }
+pub open spec fn dec_kind(d: DecodeFilterBody) -> SupportedEncoding { d.wkind().0 }
+impl EncodeFilterBody {
+    //@@ fn src/filter/encoding/encode.rs :: impl EncodeFilterBody / fn new -> r
+    //@| ensures enc_kind(r) == encoding, r.kind_ok(), fresh(r.fed(), r.sink(), r.prod()),
+}
+impl DecodeFilterBody {
+    //@@ fn src/filter/encoding/decode.rs :: impl DecodeFilterBody / fn new -> r
+    //@| ensures dec_kind(r) == encoding, r.kind_ok(), fresh(r.fed(), r.sink(), r.prod()),
 }
 //@@ item src/filter/filter_body.rs :: enum FilterBodyActionItem
 //@@ item src/filter/filter_body.rs :: struct FilterBodyAction
